@@ -151,6 +151,7 @@ def main():
     ap.add_argument("--budget", type=float, default=None)
     ap.add_argument("--replay", default=None)
     ap.add_argument("--nproc", type=int, default=int(os.environ.get("VERIF_NPROC", "16")))
+    ap.add_argument("--no-evidence", action="store_true")
     args = ap.parse_args()
     repo = driver.repo_dir()
     seed = driver.seed_from_env()
@@ -179,13 +180,13 @@ def main():
     tmp = tempfile.mkdtemp(prefix="c14_", dir=os.environ.get("VERIF_TMP", "/var/tmp"))
     try:
         variants, done, errors = run_workers(seed, conf, tmp, repo, args.nproc)
-        rc = report(seed, tier, conf, variants, done, errors, time.monotonic() - t0, repo)
+        rc = report(seed, tier, conf, variants, done, errors, time.monotonic() - t0, repo, not args.no_evidence)
     finally:
         shutil.rmtree(tmp, ignore_errors=True)
     sys.exit(rc)
 
 
-def report(seed, tier, conf, variants, done, errors, wall, repo):
+def report(seed, tier, conf, variants, done, errors, wall, repo, write_ev=True):
     from sim.kernels14 import GROUPS, PROGRAMS
 
     known = driver.load_known()
@@ -323,7 +324,8 @@ def report(seed, tier, conf, variants, done, errors, wall, repo):
             "sampling beyond the boundary sweep; clean means no violation among the calls counted here",
         ],
     }
-    driver.write_evidence(PROP, ev)
+    if write_ev:
+        driver.write_evidence(PROP, ev)
     print(f"C14: {calls} kernel calls in {entries} history entries over {len(done)} processes ({len(programs_run)}/{len(PROGRAMS)} programs), {len(tuples)} distinct dirty (kernel,size,poison,perturb) tuples, {compared} calls compared across allocator states {variants}, wall {wall:.0f}s")
     for e in errors[:10]:
         print("HARNESS-ERROR:", e[:1500])
